@@ -87,6 +87,9 @@ def _r10_by_value(ctx, repo, md) -> bool:
     from .. import h5model
     try:
         res = h5model.interpreted_resume_runs(repo, all_crash_points=(ctx.tier == "thorough"))
+        # the thermostatted engine goes through the same run loop with its own constructor arguments on resume
+        res += [(t, ck, [f"(Molecular_Dynamics_Langevin) {m}" for m in msgs], n)
+                for t, ck, msgs, n in h5model.interpreted_resume_runs(repo, cls_name="Molecular_Dynamics_Langevin", tables=h5model.RESUME_TABLES[:1])]
     except AnalysisError as e:
         ctx.note(f"R10: the run loop / writers / checkpoint routines could not be interpreted ({str(e)[:140]}); resume is judged by the shape-based rules R2, R5, R7, R8 only")
         ctx.ok("R10", MD, "not interpretable in this spelling: judged by the shape-based rules", nontrivial=False)
